@@ -546,6 +546,24 @@ theorem C11_bmodels (md : Nat → BModelV) (hmd : ∀ x, (md x).ok) (h9 : ∀ x,
    (bmodels_roundtrip md hmd h9 nodes faces world entModels idx ml nodes' faces' fn ff recs phys fuel h hfuel hn hf).2.1,
    (bmodels_roundtrip md hmd h9 nodes faces world entModels idx ml nodes' faces' fn ff recs phys fuel h hfuel hn hf).2.2.1⟩
 
+/-- **Detail props** (models, sprites, shapes): records with the model-name dictionary and the
+sprite table, both built by `find_or_insert` keyed on the value. -/
+theorem C11_detail_props (ds : List DetailV) (h6 : ∀ d ∈ ds, d.f6.length = 6) (models : List Nat) (sprites : List (List UInt32))
+    (h1 : (writeDetails ⟨Finder.mk' idKey [], Finder.mk' rectKey []⟩ ds).2.fModel.list <+: models)
+    (h2 : (writeDetails ⟨Finder.mk' idKey [], Finder.mk' rectKey []⟩ ds).2.fSprite.list <+: sprites) :
+    readDetails models sprites (writeDetails ⟨Finder.mk' idKey [], Finder.mk' rectKey []⟩ ds).1 = .ok ds :=
+  details_roundtrip ds h6 models sprites h1 h2
+
+/-- **Static props: model dictionary indices and the leaf-index array.** Each prop comes back with
+its model name and the same set of leafs (`propsAgree`: the leaf lists are permutations — the writer
+sorts each prop's indices, the reader builds a set). -/
+theorem C11_prop_leafs (visleafs models leafs : List Nat) (ps : List PropRefV)
+    (h1 : (writePropIdx ⟨Finder.mk' idKey [], Finder.mk' idKey visleafs, []⟩ ps).2.fModel.list <+: models)
+    (h2 : (writePropIdx ⟨Finder.mk' idKey [], Finder.mk' idKey visleafs, []⟩ ps).2.fLeaf.list <+: leafs) :
+    ∃ leafList rs, resolveArr leafs (writePropIdx ⟨Finder.mk' idKey [], Finder.mk' idKey visleafs, []⟩ ps).2.leafArray = .ok leafList ∧
+      readPropIdx models leafList (writePropIdx ⟨Finder.mk' idKey [], Finder.mk' idKey visleafs, []⟩ ps).1 = .ok rs ∧ propsAgree rs ps :=
+  propidx_roundtrip visleafs models leafs ps h1 h2
+
 /-- the records of brushes, sides, leafs and nodes have the shapes `C11_gen_xref_shapes` speaks about
 (so `C11_lump_bytes` applies to them) -/
 theorem C11_xref_record_shapes (vit : Bool) (sd : Nat → SideV) (t : BrushTabs) (bs : List BrushV)
